@@ -5,7 +5,7 @@ import Saito.Lemmas.Handshake
 Model: `Saito/Model/Handshake.lean` (`Hs.step`, mirrors `Peer::{initiate_handshake, handle_handshake_challenge,
 handle_handshake_response}`, `Network::{handle_new_peer, handle_peer_disconnect, handle_handshake_challenge,
 handle_handshake_response}`, `PeerCollection::remove_reconnected_peer`). `H` = number of honest nodes (keys `0 … H-1`); every
-other key is the attacker's. `run H ops` = state after an ARBITRARY finite script `ops` of connects, disconnects, deliveries of
+other key is the attacker's. `run fx H ops` = state after an ARBITRARY finite script `ops` of connects, disconnects, deliveries of
 any challenge / any derivable response to any connection of any honest node, and attacker signatures with its own keys: all
 interleavings, drops (an op simply not issued), replays, redirections and reflections are scripts.
 
@@ -20,23 +20,24 @@ who carried it to the connection.
 -/
 namespace Saito.C17
 open Saito.Hs
+variable {fx : Bool}
 
 /-- **Authentication.** In every reachable state, every acceptance `accepted node c k n` in the history is preceded (strictly
     earlier in the history) by `issued node c n` — the nonce was drawn fresh by this node for this very connection — and by a
     signature `signed k n src` by the accepted key over exactly that nonce. -/
 theorem accepted_needs_issue_and_signature (H : Nat) (ops : List Op) (pre post : List Event) (node c k n : Nat)
-    (h : (run H ops).log = pre ++ Event.accepted node c k n :: post) :
+    (h : (run fx H ops).log = pre ++ Event.accepted node c k n :: post) :
     Event.issued node c n ∈ post ∧ ∃ src, Event.signed k n src ∈ post := by
-  have hok := (inv_run H ops).log.logOK
+  have hok := (inv_run (fx := fx) H ops).log.logOK
   rw [h] at hok
   exact LogOK_split hok
 
 /-- **Freshness of the signature.** Every signature over a nonce other than the zero constant was made after that nonce was issued
     (so the signer was alive after the challenge was drawn). -/
 theorem signature_after_issue (H : Nat) (ops : List Op) (pre post : List Event) (k n : Nat) (src : Option Nat)
-    (h : (run H ops).log = pre ++ Event.signed k n src :: post) (hn : n ≠ 0) :
+    (h : (run fx H ops).log = pre ++ Event.signed k n src :: post) (hn : n ≠ 0) :
     ∃ node c, Event.issued node c n ∈ post := by
-  have hok := (inv_run H ops).log.logOK
+  have hok := (inv_run (fx := fx) H ops).log.logOK
   rw [h] at hok
   have := LogOK_split hok
   exact this.resolve_left hn
@@ -44,9 +45,9 @@ theorem signature_after_issue (H : Nat) (ops : List Op) (pre post : List Event) 
 /-- **Unforgeability bookkeeping.** A signature under an honest key `k < H` is only ever made by node `k`'s own handlers
     (`src = some c`: while handling a message on its connection `c`), never by the attacker; attacker signatures carry attacker keys. -/
 theorem honest_signature_origin (H : Nat) (ops : List Op) (k n : Nat) (src : Option Nat)
-    (h : Event.signed k n src ∈ (run H ops).log) :
+    (h : Event.signed k n src ∈ (run fx H ops).log) :
     (k < H → ∃ c, src = some c) ∧ (src = none → H ≤ k) := by
-  have hi := (inv_run H ops).log
+  have hi := (inv_run (fx := fx) H ops).log
   cases src with
   | none => exact ⟨fun hk => absurd (hi.attSig k n h) (Nat.not_le.mpr hk), fun _ => hi.attSig k n h⟩
   | some c => exact ⟨fun _ => ⟨c, rfl⟩, fun hc => by cases hc⟩
@@ -54,40 +55,40 @@ theorem honest_signature_origin (H : Nat) (ops : List Op) (k n : Nat) (src : Opt
 /-- **Each challenge is accepted at most once**: the history of a reachable state contains at most one acceptance on connection
     `(node, c)` against nonce `n`, under whatever key (the stored challenge is cleared on acceptance and nonces are fresh). -/
 theorem accepted_once (H : Nat) (ops : List Op) (node c n : Nat) :
-    (run H ops).log.countP (accOn node c n) ≤ 1 :=
-  (inv_run H ops).log.accOnce node c n
+    (run fx H ops).log.countP (accOn node c n) ≤ 1 :=
+  (inv_run (fx := fx) H ops).log.accOnce node c n
 
 /-- A nonce is accepted on at most one connection: acceptances against the same nonce are on the connection it was issued for. -/
 theorem accepted_nonce_one_connection (H : Nat) (ops : List Op) (node c k node' c' k' n : Nat)
-    (h1 : Event.accepted node c k n ∈ (run H ops).log) (h2 : Event.accepted node' c' k' n ∈ (run H ops).log) :
+    (h1 : Event.accepted node c k n ∈ (run fx H ops).log) (h2 : Event.accepted node' c' k' n ∈ (run fx H ops).log) :
     node = node' ∧ c = c' :=
-  have hi := (inv_run H ops).log
+  have hi := (inv_run (fx := fx) H ops).log
   hi.issuedUnique _ _ _ _ _ (acc_issued hi.logOK h1) (acc_issued hi.logOK h2)
 
 /-- **State ⇒ history.** A peer entry that is marked Connected carries a key `k`, and an acceptance under `k` on that very
     connection is in the history. -/
 theorem connected_has_acceptance (H : Nat) (ops : List Op) (node c : Nat) (p : Peer)
-    (hg : mget (run H ops).peers (node, c) = some p) (hc : p.status = .connected) :
-    ∃ k n, p.key = some k ∧ Event.accepted node c k n ∈ (run H ops).log :=
-  ((inv_run H ops).peers node c p hg).connAcc hc
+    (hg : mget (run fx H ops).peers (node, c) = some p) (hc : p.status = .connected) :
+    ∃ k n, p.key = some k ∧ Event.accepted node c k n ∈ (run fx H ops).log :=
+  ((inv_run (fx := fx) H ops).peers node c p hg).connAcc hc
 
 /-- **The property, first sentence.** A connection is marked Connected under key `k` only after this node issued a fresh
     challenge `n` on that very connection and a signature by `k` over `n` was made (by `k`'s owner if `k` is honest). -/
 theorem connected_needs_signature_over_own_challenge (H : Nat) (ops : List Op) (node c : Nat) (p : Peer)
-    (hg : mget (run H ops).peers (node, c) = some p) (hc : p.status = .connected) :
-    ∃ k n, p.key = some k ∧ Event.issued node c n ∈ (run H ops).log ∧
-      ∃ src, Event.signed k n src ∈ (run H ops).log ∧ (k < H → ∃ c', src = some c') := by
+    (hg : mget (run fx H ops).peers (node, c) = some p) (hc : p.status = .connected) :
+    ∃ k n, p.key = some k ∧ Event.issued node c n ∈ (run fx H ops).log ∧
+      ∃ src, Event.signed k n src ∈ (run fx H ops).log ∧ (k < H → ∃ c', src = some c') := by
   obtain ⟨k, n, hk, ha⟩ := connected_has_acceptance H ops node c p hg hc
   obtain ⟨pre, post, hs⟩ := List.append_of_mem ha
   obtain ⟨hi, src, hsg⟩ := accepted_needs_issue_and_signature H ops pre post node c k n hs
-  have hmem : ∀ e, e ∈ post → e ∈ (run H ops).log := fun e he => by
+  have hmem : ∀ e, e ∈ post → e ∈ (run fx H ops).log := fun e he => by
     rw [hs]; exact List.mem_append_right _ (List.mem_cons_of_mem _ he)
   exact ⟨k, n, hk, hmem _ hi, src, hmem _ hsg, (honest_signature_origin H ops k n src (hmem _ hsg)).1⟩
 
 /-- every `address_to_peers` entry `k ↦ c` of a node is backed by an acceptance under `k` on connection `c` -/
 theorem addr_has_acceptance (H : Nat) (ops : List Op) (node k c : Nat)
-    (hg : mget (run H ops).addr (node, k) = some c) : ∃ n, Event.accepted node c k n ∈ (run H ops).log :=
-  (inv_run H ops).addr node k c hg
+    (hg : mget (run fx H ops).addr (node, k) = some c) : ∃ n, Event.accepted node c k n ∈ (run fx H ops).log :=
+  (inv_run (fx := fx) H ops).addr node k c hg
 
 /-! ## bad responses are inert (one step, from ANY state) -/
 
@@ -101,7 +102,7 @@ theorem addr_has_acceptance (H : Nat) (ops : List Op) (node k c : Nat)
 theorem bad_response_inert (H : Nat) (st : State) (node c : Nat) (r : Response) (pick : Nat) (p : Peer)
     (hg : mget st.peers (node, c) = some p)
     (hbad : r.ver ≠ .ok ∨ p.challenge = none ∨ ∀ n, p.challenge = some n → r.sig ≠ some (r.key, n)) :
-    let res := step H st (.deliverResponse node c r pick)
+    let res := step fx H st (.deliverResponse node c r pick)
     (res.2 = .rejected ∧ res.1 = st) ∨
     (res.2 = .ok [.disconnect c, .disconnect c] ∧
       mget res.1.peers (node, c) = some { p with status := .disconnected, challenge := none } ∧
@@ -143,7 +144,7 @@ theorem bad_response_inert (H : Nat) (st : State) (node c : Nat) (r : Response) 
     exact ⟨rfl, rfl⟩
 
 /-- the key-mismatch assert (property C11's panic) changes nothing: a step that panics leaves the whole state as it was -/
-theorem panic_inert (H : Nat) (st : State) (op : Op) (h : (step H st op).2 = .panic) : (step H st op).1 = st := by
+theorem panic_inert (H : Nat) (st : State) (op : Op) (h : (step fx H st op).2 = .panic) : (step fx H st op).1 = st := by
   cases op with
   | deliverResponse node c r pick =>
     simp only [step] at h ⊢
@@ -159,6 +160,19 @@ theorem panic_inert (H : Nat) (st : State) (op : Op) (h : (step H st op).2 = .pa
     · cases h
   | _ => exact absurd h (simple_effect H st _ (by intros; simp)).1
 
+/-- with the repaired key-mismatch branch NO operation panics, whatever the state and the script -/
+theorem fixed_never_panics (H : Nat) (st : State) (op : Op) : (step true H st op).2 ≠ .panic := by
+  cases op with
+  | deliverResponse node c r pick =>
+    simp only [step]
+    split
+    · unfold deliverResponse
+      simp only [failResponse, acceptResponse, if_true]
+      repeat' split
+      all_goals simp
+    · simp
+  | _ => exact (simple_effect H st _ (by intros; simp)).1
+
 /-! ## an authenticated peer is only displaced by a signature of its own key -/
 
 /-- **An authenticated peer entry is never touched from another connection.** Whatever is delivered to, or happens on, any OTHER
@@ -166,7 +180,7 @@ theorem panic_inert (H : Nat) (st : State) (op : Op) (h : (step H st op).2 = .pa
     `remove_reconnected_peer`, which only removes entries that are not Connected. -/
 theorem connected_entry_stable (H : Nat) (st : State) (op : Op) (node c : Nat) (p : Peer)
     (hg : mget st.peers (node, c) = some p) (hc : p.status = .connected) (ht : target op ≠ some (node, c)) :
-    mget (step H st op).1.peers (node, c) = some p := by
+    mget (step fx H st op).1.peers (node, c) = some p := by
   cases op with
   | deliverResponse node' c' r pick =>
     have hne : (node', c') ≠ (node, c) := fun h => ht (by simp [target, h])
@@ -197,7 +211,7 @@ theorem connected_entry_stable (H : Nat) (st : State) (op : Op) (node c : Nat) (
     response delivered to a connection `c` of that node that claims `k`, carries a compatible version and a signature by `k` over
     the challenge stored for `c`. Bad responses, challenges, connects and disconnects never move the pointer of an authenticated key. -/
 theorem addr_change_needs_signature (H : Nat) (st : State) (op : Op) (node k : Nat)
-    (hchg : mget (step H st op).1.addr (node, k) ≠ mget st.addr (node, k)) :
+    (hchg : mget (step fx H st op).1.addr (node, k) ≠ mget st.addr (node, k)) :
     ∃ c r pick p n, op = .deliverResponse node c r pick ∧ r.key = k ∧ r.ver = .ok ∧
       mget st.peers (node, c) = some p ∧ p.challenge = some n ∧ r.sig = some (k, n) := by
   cases op with
@@ -240,7 +254,9 @@ theorem addr_change_needs_signature (H : Nat) (st : State) (op : Op) (node k : N
                 exact ⟨c', r, pick, q, n, rfl, rfl, hv', hq, hch, hsig'⟩
               split at hchg
               · split at hchg
-                · exact absurd rfl hchg
+                · split at hchg
+                  · exact absurd rfl hchg
+                  · exact absurd rfl hchg
                 · exact fin (hacc q n hchg)
               · exact fin (hacc q n hchg)
 
@@ -255,22 +271,22 @@ def honestScript : List Op :=
    .deliverResponse 0 1 ⟨1, some (1, 1), 2, .ok⟩ 0, .deliverResponse 1 1 ⟨0, some (0, 2), 0, .ok⟩ 0]
 
 /-- the honest run reaches acceptances on both sides, both entries Connected, both address maps set -/
-example : Event.accepted 0 1 1 1 ∈ (run 2 honestScript).log ∧ Event.accepted 1 1 0 2 ∈ (run 2 honestScript).log ∧
-    mget (run 2 honestScript).peers (0, 1) = some ⟨.connected, none, some 1, false⟩ ∧
-    mget (run 2 honestScript).peers (1, 1) = some ⟨.connected, none, some 0, true⟩ ∧
-    mget (run 2 honestScript).addr (0, 1) = some 1 ∧ mget (run 2 honestScript).addr (1, 0) = some 1 := by decide
+example : Event.accepted 0 1 1 1 ∈ (run false 2 honestScript).log ∧ Event.accepted 1 1 0 2 ∈ (run false 2 honestScript).log ∧
+    mget (run false 2 honestScript).peers (0, 1) = some ⟨.connected, none, some 1, false⟩ ∧
+    mget (run false 2 honestScript).peers (1, 1) = some ⟨.connected, none, some 0, true⟩ ∧
+    mget (run false 2 honestScript).addr (0, 1) = some 1 ∧ mget (run false 2 honestScript).addr (1, 0) = some 1 := by decide
 
 /-- hypotheses of `bad_response_inert` are met by a replay: after the honest run node 1's first response is delivered to node 0
     again (no challenge outstanding) — node 0's entry goes Disconnected, node 1's Connected entry and both maps stay -/
-example : let st := run 2 honestScript
-    let res := step 2 st (.deliverResponse 0 1 ⟨1, some (1, 1), 2, .ok⟩ 0)
+example : let st := run false 2 honestScript
+    let res := step false 2 st (.deliverResponse 0 1 ⟨1, some (1, 1), 2, .ok⟩ 0)
     res.2 = .ok [.disconnect 1, .disconnect 1] ∧
     mget res.1.peers (0, 1) = some ⟨.disconnected, none, some 1, false⟩ ∧
     mget res.1.peers (1, 1) = mget st.peers (1, 1) ∧ res.1.addr = st.addr := by decide
 
 /-- a response lifted from another connection: node 1's answer to the challenge of 0/1 (nonce 1) delivered to 0/2 (challenge 2) -/
-example : let st := run 2 [.addStatic 1 1, .connect 0 1, .connect 0 2, .connect 1 1, .deliverChallenge 1 1 1]
-    let res := step 2 st (.deliverResponse 0 2 ⟨1, some (1, 1), 3, .ok⟩ 0)
+example : let st := run false 2 [.addStatic 1 1, .connect 0 1, .connect 0 2, .connect 1 1, .deliverChallenge 1 1 1]
+    let res := step false 2 st (.deliverResponse 0 2 ⟨1, some (1, 1), 3, .ok⟩ 0)
     res.2 = .ok [.disconnect 2, .disconnect 2] ∧ mget res.1.peers (0, 1) = mget st.peers (0, 1) ∧ res.1.log = st.log := by decide
 
 /-- **Relay through an honest signer (documented limit, reproduced on the real code: corpus/C17/relay.ops).** The attacker opens
@@ -282,20 +298,26 @@ def relayScript : List Op :=
   [.connect 0 2, .connect 1 2, .deliverChallenge 1 2 1, .deliverResponse 0 2 ⟨1, some (1, 1), 3, .ok⟩ 0]
 
 theorem relay_witness :
-    mget (run 2 relayScript).peers (0, 2) = some ⟨.connected, none, some 1, false⟩ ∧
-    mget (run 2 relayScript).addr (0, 1) = some 2 ∧
-    Event.signed 1 1 (some 2) ∈ (run 2 relayScript).log ∧ Event.issued 0 2 1 ∈ (run 2 relayScript).log := by decide
+    mget (run false 2 relayScript).peers (0, 2) = some ⟨.connected, none, some 1, false⟩ ∧
+    mget (run false 2 relayScript).addr (0, 1) = some 2 ∧
+    Event.signed 1 1 (some 2) ∈ (run false 2 relayScript).log ∧ Event.issued 0 2 1 ∈ (run false 2 relayScript).log := by decide
 
 /-- the key-mismatch assert is reachable by the attacker alone (two own keys 2 and 3): authenticate 0/2 under key 2, get
     re-challenged through `handle_handshake_challenge`, answer correctly under key 3 (corpus/C17/key-mismatch-panic.ops) -/
-example : (runOut 2 init [.connect 0 2, .attackerSign 2 1, .deliverResponse 0 2 ⟨2, some (2, 1), 0, .ok⟩ 0,
+example : (runOut false 2 init [.connect 0 2, .attackerSign 2 1, .deliverResponse 0 2 ⟨2, some (2, 1), 0, .ok⟩ 0,
     .deliverChallenge 0 2 0, .attackerSign 3 2, .deliverResponse 0 2 ⟨3, some (3, 2), 0, .ok⟩ 0]).2.getLast? = some .panic := by
+  decide
+
+/-- with the repair the same script ends with the response refused and the connection dropped (no panic) -/
+example : (runOut true 2 init [.connect 0 2, .attackerSign 2 1, .deliverResponse 0 2 ⟨2, some (2, 1), 0, .ok⟩ 0,
+    .deliverChallenge 0 2 0, .attackerSign 3 2, .deliverResponse 0 2 ⟨3, some (3, 2), 0, .ok⟩ 0]).2.getLast? =
+      some (.ok [.disconnect 2, .disconnect 2]) := by
   decide
 
 /-- observation (not a violation of C17; reproduced by corpus/C17/reconnect-and-relay.ops): after a reconnection
     `remove_reconnected_peer` drops the key from `address_to_peers` and nothing re-inserts it, although two entries are Connected
     under that key -/
-example : let st := run 2 [.connect 0 1, .connect 1 2, .deliverChallenge 1 2 1, .deliverResponse 0 1 ⟨1, some (1, 1), 3, .ok⟩ 0,
+example : let st := run false 2 [.connect 0 1, .connect 1 2, .deliverChallenge 1 2 1, .deliverResponse 0 1 ⟨1, some (1, 1), 3, .ok⟩ 0,
       .connect 0 2, .deliverChallenge 1 2 4, .deliverResponse 0 2 ⟨1, some (1, 4), 0, .ok⟩ 0,
       .disconnect 0 1, .connect 0 3, .deliverChallenge 1 2 6, .deliverResponse 0 3 ⟨1, some (1, 6), 0, .ok⟩ 0]
     mget st.addr (0, 1) = none ∧ mget st.peers (0, 1) = none ∧
